@@ -81,6 +81,23 @@ def basic(result, expect_quiesced=True):
     return v
 
 
+def replaced_handlers(h):
+    """After the user has re-bound the out-event handlers of a client port (record `rebind`, made while the port was
+    quiet), every later out-event for that client must reach the handlers bound last, not the ones they replaced."""
+    rb = [(r['seq'], int(r['cl']), int(r['gen'])) for r in h.by_kind.get('rebind', [])]
+    if not rb:
+        return []
+    for hd in h.handlers:
+        if hd['side'] != 'o' or hd['cl'] < 0:
+            continue
+        want = max([g for (seq, cl, g) in rb if cl == hd['cl'] and seq < hd['seq']], default=0)
+        if hd['gen'] != want:
+            e = h.mb.events[hd['ev']]
+            return [Violation('routing:out-event-delivered-to-a-replaced-handler',
+                              f"event {e['name']} for client {hd['cl']} reached the handler bound as #{hd['gen']}, the user had since bound #{want}", hd['seq'])]
+    return []
+
+
 def sibling(result):
     """A second instance of the same shell type lives in the process (tape keyword SIBLING): nothing the judged instance
     does may reach it, and at the end it is exactly as it was left - same parent, same registered clients, its own
@@ -137,7 +154,7 @@ class History:
             elif k == 'hdl':
                 h = {'hid': int(r['hid']), 'ev': int(r['ev']), 'side': r['side'], 'cl': int(r['cl']), 'in': toks(r['in']),
                      'reply': None if r['reply'] == '-' else int(r['reply']), 'out': toks(r['out']), 'disp': int(r['disp']),
-                     'ord': int(r['ord']), 'seq': r['seq'], 'task': r['task'], 'end': None}
+                     'ord': int(r['ord']), 'seq': r['seq'], 'task': r['task'], 'end': None, 'gen': int(r.get('gen', '0'))}
                 hid_map[h['hid']] = h
                 self.handlers.append(h)
             elif k == 'hdl_end':
@@ -344,7 +361,7 @@ def judge_c01(mb, run, result):
         return wopen is None or c['seq'] < wopen or (wclose is not None and end > wclose)
 
     vs, _ = routing(h, dont_care)
-    return client_registration(h, run) + vs
+    return client_registration(h, run) + vs + replaced_handlers(h)
 
 
 # ------------------------------------------------------------------------------------------------ C02
@@ -548,8 +565,9 @@ def client_registration(h: History, run):
             out.append(Violation('multiclient:clients-share-a-port-object', f"identifiers {run.get('client_names')}"))
     mon = h.first('monitor_registered')
     for r in h.by_kind.get('client_ids', []):
+        from .tapes import quote_id
         got = sorted([] if r['ids'] == '-' else r['ids'].split(','))
-        want = sorted((run.get('client_names') or [f'client{k}' for k in range(run['clients'])]) +
+        want = sorted([quote_id(n) for n in (run.get('client_names') or [f'client{k}' for k in range(run['clients'])])] +
                       (['monitor'] if mon is not None and mon['result'] == 'ok' and mon['seq'] < r['seq'] else []))
         if got != want:
             out.append(Violation('multiclient:registered-identifiers-not-listed', f'registered {want}, listed {got}'))
@@ -568,7 +586,7 @@ def judge_c04(mb, run, result):
     if ctor is None or ctor['result'] != 'ok' or fc is None or fc['result'] != 'ok':
         return [Violation('construction:valid-world-rejected', f'{ctor} {fc}')]
     mc = mb.mc
-    out = client_registration(h, run)
+    out = client_registration(h, run) + replaced_handlers(h)
     calls = sorted(h.calls.values(), key=lambda c: c['seq'])
     ctl = [c for c in calls if c['side'] == 'o' and c['ev'] in (mc['claim'], mc['release'])]
     # timeline of the literal predicate
@@ -687,7 +705,7 @@ def judge_c11(mb, run, result):
     if ctor is None or ctor['result'] != 'ok' or fc is None or fc['result'] != 'ok':
         return [Violation('construction:valid-world-rejected', f'{ctor} {fc}')]
     mc = mb.mc
-    out = client_registration(h, run)
+    out = client_registration(h, run) + replaced_handlers(h)
     calls = sorted(h.calls.values(), key=lambda c: c['seq'])
     vs, match_c = routing(h, lambda c: c['side'] == 'i' and c['ev'] in mc['out_events'])
     out += [x for x in vs if not x.cls.startswith('routing:phantom')]
